@@ -185,6 +185,47 @@ def Act.isWriteHeader : Act → Bool
   | .writeHeader _ => true
   | _ => false
 
+/-- A `WriteHeader` that fixes the status: any status that is not informational. -/
+def Act.isFinalHeader : Act → Bool
+  | .writeHeader c => !informational c
+  | _ => false
+
+theorem informational_200 : informational 200 = false := by decide
+theorem informational_101 : informational 101 = false := by decide
+
+/-- `informational`, as the condition of the Go source read the other way round. -/
+theorem informational_iff (c : Nat) : informational c = true ↔ 100 ≤ c ∧ c ≤ 199 ∧ c ≠ 101 := by
+  simp [informational, and_assoc]
+
+/-- The flag `headResponse.WriteHeader` stores: `status < 100 || status > 199 || status == 101`. -/
+theorem not_informational_iff (c : Nat) : (!informational c) = true ↔ c < 100 ∨ c > 199 ∨ c = 101 := by
+  rw [Bool.not_eq_true', ← Bool.not_eq_true, informational_iff]
+  omega
+
+/-! ## Basic facts about the recorder -/
+
+theorem Rec.writeHeader_info (r : Rec) (c : Nat) (hi : informational c = true) : r.writeHeader c = r := by
+  unfold Rec.writeHeader; rw [if_pos hi]
+theorem Rec.writeHeader_hdr (r : Rec) (c : Nat) : (r.writeHeader c).hdr = r.hdr := by
+  unfold Rec.writeHeader; split
+  · rfl
+  · split <;> rfl
+theorem Rec.writeHeader_body (r : Rec) (c : Nat) : (r.writeHeader c).body = r.body := by
+  unfold Rec.writeHeader; split
+  · rfl
+  · split <;> rfl
+theorem Rec.writeHeader_none (r : Rec) (c : Nat) (hi : informational c = false) (h : r.code = none) :
+    (r.writeHeader c).code = some c := by
+  unfold Rec.writeHeader; rw [hi, h]; rfl
+theorem Rec.writeHeader_none_snap (r : Rec) (c : Nat) (hi : informational c = false) (h : r.code = none) :
+    (r.writeHeader c).snap = some r.hdr := by
+  unfold Rec.writeHeader; rw [hi, h]; rfl
+theorem Rec.writeHeader_some (r : Rec) (c x : Nat) (h : r.code = some x) : r.writeHeader c = r := by
+  unfold Rec.writeHeader; rw [h]; split <;> rfl
+theorem Rec.write_hdr (r : Rec) (n : Nat) : (r.write n).hdr = r.hdr := by
+  unfold Rec.write; exact Rec.writeHeader_hdr r 200
+theorem Rec.write_code (r : Rec) (n : Nat) : (r.write n).code = (r.writeHeader 200).code := rfl
+
 /-! ## `runHead` never forwards a body byte -/
 
 theorem runHead_body (acts : List Act) (sz : Nat) (wr : Bool) (r : Rec) :
@@ -193,23 +234,11 @@ theorem runHead_body (acts : List Act) (sz : Nat) (wr : Bool) (r : Rec) :
   | nil => rfl
   | cons a as ih =>
     cases a <;> simp only [runHead, ih]
-    · cases wr <;> simp [Rec.writeHeader]
-      split <;> rfl
+    · cases wr
+      · exact Rec.writeHeader_body r _
+      · rfl
 
 /-! ## Status and header map: simulation between `runHead` and `runGet` -/
-
-theorem Rec.writeHeader_hdr (r : Rec) (c : Nat) : (r.writeHeader c).hdr = r.hdr := by
-  unfold Rec.writeHeader; split <;> rfl
-theorem Rec.writeHeader_body (r : Rec) (c : Nat) : (r.writeHeader c).body = r.body := by
-  unfold Rec.writeHeader; split <;> rfl
-theorem Rec.writeHeader_none (r : Rec) (c : Nat) (h : r.code = none) :
-    (r.writeHeader c).code = some c := by
-  unfold Rec.writeHeader; rw [h]
-theorem Rec.writeHeader_some (r : Rec) (c x : Nat) (h : r.code = some x) : r.writeHeader c = r := by
-  unfold Rec.writeHeader; rw [h]
-theorem Rec.write_hdr (r : Rec) (n : Nat) : (r.write n).hdr = r.hdr := by
-  unfold Rec.write; exact Rec.writeHeader_hdr r 200
-theorem Rec.write_code (r : Rec) (n : Nat) : (r.write n).code = (r.writeHeader 200).code := rfl
 
 /-- The simulation relation between the recorder under `headResponse{size, wrote}` and the recorder
 of the plain GET run after the same prefix of the script. -/
@@ -220,25 +249,32 @@ structure HeadSim (wr : Bool) (rh rg : Rec) : Prop where
   notyet : wr = false → rh.code = rg.code
 
 theorem headSim_writeHeader (wr : Bool) (rh rg : Rec) (c : Nat) (h : HeadSim wr rh rg) :
-    HeadSim true (if wr then rh else rh.writeHeader c) (rg.writeHeader c) := by
-  obtain ⟨hh, hs, hw, hn⟩ := h
+    HeadSim (if wr then true else !informational c) (if wr then rh else rh.writeHeader c) (rg.writeHeader c) := by
   cases wr with
   | true =>
+    obtain ⟨hh, hs, hw, hn⟩ := h
     obtain ⟨x, hx⟩ := hw rfl
     rw [Rec.writeHeader_some _ _ _ hx]
     exact ⟨hh, hs, fun _ => ⟨x, hx⟩, by simp⟩
   | false =>
-    have hc := hn rfl
     simp only [Bool.false_eq_true, if_false]
-    cases hg : rg.code with
-    | some x =>
-      rw [Rec.writeHeader_some _ _ _ hg, Rec.writeHeader_some _ _ _ (hc.trans hg)]
-      exact ⟨hh, hs, fun _ => ⟨x, hg⟩, by simp⟩
-    | none =>
-      refine ⟨?_, ?_, fun _ => ⟨c, Rec.writeHeader_none _ _ hg⟩, by simp⟩
-      · rw [Rec.writeHeader_hdr, Rec.writeHeader_hdr]; exact hh
-      · unfold Rec.status
-        rw [Rec.writeHeader_none _ _ hg, Rec.writeHeader_none _ _ (hc.trans hg)]
+    cases hi : informational c with
+    | true =>
+      -- an informational status: both recorders stay as they are, and so does the flag
+      rw [Rec.writeHeader_info _ _ hi, Rec.writeHeader_info _ _ hi]
+      exact h
+    | false =>
+      obtain ⟨hh, hs, hw, hn⟩ := h
+      have hc := hn rfl
+      cases hg : rg.code with
+      | some x =>
+        rw [Rec.writeHeader_some _ _ _ hg, Rec.writeHeader_some _ _ _ (hc.trans hg)]
+        exact ⟨hh, hs, fun _ => ⟨x, hg⟩, by simp⟩
+      | none =>
+        refine ⟨?_, ?_, fun _ => ⟨c, Rec.writeHeader_none _ _ hi hg⟩, by simp⟩
+        · rw [Rec.writeHeader_hdr, Rec.writeHeader_hdr]; exact hh
+        · unfold Rec.status
+          rw [Rec.writeHeader_none _ _ hi hg, Rec.writeHeader_none _ _ hi (hc.trans hg)]
 
 theorem headSim_write (wr : Bool) (rh rg : Rec) (n : Nat) (v : Bytes) (h : HeadSim wr rh rg) :
     HeadSim true { rh with hdr := rh.hdr.set hContentLength v } (rg.write n) := by
@@ -261,10 +297,10 @@ theorem headSim_write (wr : Bool) (rh rg : Rec) (n : Nat) (v : Bytes) (h : HeadS
     have hc : rh.code = none := (hn hwr).trans hg
     refine ⟨hhdr, ?_, fun _ => ⟨200, ?_⟩, by simp⟩
     · unfold Rec.status
-      rw [Rec.write_code, Rec.writeHeader_none _ _ hg]
+      rw [Rec.write_code, Rec.writeHeader_none _ _ informational_200 hg]
       show rh.code.getD 200 = _
       rw [hc]; rfl
-    · rw [Rec.write_code, Rec.writeHeader_none _ _ hg]
+    · rw [Rec.write_code, Rec.writeHeader_none _ _ informational_200 hg]
 
 theorem headSim_run (acts : List Act) (sz : Nat) (wr : Bool) (rh rg : Rec) (h : HeadSim wr rh rg) :
     ∃ wr', HeadSim wr' (runHead acts sz wr rh) (runGet acts rg) := by
@@ -312,6 +348,85 @@ theorem runHead_headers (acts : List Act) (r0 : Rec) :
     (runHead acts 0 false r0).hdr.del hContentLength = (runGet acts r0).hdr.del hContentLength :=
   let ⟨_, h⟩ := headSim_run acts 0 false r0 r0 (headSim_init r0); h.hdr
 
+/-! ## The header snapshot -/
+
+/-- Snapshot part of the simulation: the wrapper's recorder has no snapshot yet, or the GET recorder has sent its
+header too and the two snapshots agree, Content-Length aside. -/
+def SnapSim (rh rg : Rec) : Prop :=
+  rh.snap = none ∨
+    ((∃ x, rg.code = some x) ∧
+      ∃ s s', rh.snap = some s ∧ rg.snap = some s' ∧ s.del hContentLength = s'.del hContentLength)
+
+theorem snapSim_writeHeader (wr : Bool) (rh rg : Rec) (c : Nat) (h : HeadSim wr rh rg) (hs : SnapSim rh rg) :
+    SnapSim (if wr then rh else rh.writeHeader c) (rg.writeHeader c) := by
+  cases wr with
+  | true =>
+    obtain ⟨x, hx⟩ := h.wrote rfl
+    rw [Rec.writeHeader_some _ _ _ hx]; exact hs
+  | false =>
+    simp only [Bool.false_eq_true, if_false]
+    cases hi : informational c with
+    | true => rw [Rec.writeHeader_info _ _ hi, Rec.writeHeader_info _ _ hi]; exact hs
+    | false =>
+      have hc := h.notyet rfl
+      cases hg : rg.code with
+      | some x => rw [Rec.writeHeader_some _ _ _ hg, Rec.writeHeader_some _ _ _ (hc.trans hg)]; exact hs
+      | none =>
+        refine .inr ⟨⟨c, Rec.writeHeader_none _ _ hi hg⟩, rh.hdr, rg.hdr,
+          Rec.writeHeader_none_snap _ _ hi (hc.trans hg), Rec.writeHeader_none_snap _ _ hi hg, h.hdr⟩
+
+theorem snapSim_write (rh rg : Rec) (n : Nat) (v : Bytes) (hs : SnapSim rh rg) :
+    SnapSim { rh with hdr := rh.hdr.set hContentLength v } (rg.write n) := by
+  rcases hs with hs | ⟨⟨x, hx⟩, s, s', h1, h2, h3⟩
+  · exact .inl hs
+  · have : rg.write n = { rg with body := rg.body + n } := by
+      unfold Rec.write; rw [Rec.writeHeader_some _ _ _ hx]
+    rw [this]
+    exact .inr ⟨⟨x, hx⟩, s, s', h1, h2, h3⟩
+
+theorem snapSim_run (acts : List Act) (sz : Nat) (wr : Bool) (rh rg : Rec) (h : HeadSim wr rh rg)
+    (hs : SnapSim rh rg) : SnapSim (runHead acts sz wr rh) (runGet acts rg) := by
+  induction acts generalizing sz wr rh rg with
+  | nil => exact hs
+  | cons a as ih =>
+    -- one step of the status/header simulation, as in `headSim_run`
+    cases a with
+    | setHeader k v =>
+      obtain ⟨hh, hst, hw, hn⟩ := h
+      simp only [runHead, runGet]
+      refine ih _ _ _ _ ⟨?_, hst, hw, hn⟩ hs
+      by_cases hk : k = hContentLength
+      · subst hk; simp only [Hdr.del_set_self]; exact hh
+      · simp only [Hdr.del_set_ne _ _ hk]; rw [hh]
+    | addHeader k v =>
+      obtain ⟨hh, hst, hw, hn⟩ := h
+      simp only [runHead, runGet]
+      refine ih _ _ _ _ ⟨?_, hst, hw, hn⟩ hs
+      by_cases hk : k = hContentLength
+      · subst hk; simp only [Hdr.del_add_self]; exact hh
+      · simp only [Hdr.del_add_ne _ _ hk]; rw [hh]
+    | delHeader k =>
+      obtain ⟨hh, hst, hw, hn⟩ := h
+      simp only [runHead, runGet]
+      refine ih _ _ _ _ ⟨?_, hst, hw, hn⟩ hs
+      show (rh.hdr.del k).del hContentLength = (rg.hdr.del k).del hContentLength
+      rw [Hdr.del_del_comm, Hdr.del_del_comm rg.hdr, hh]
+    | writeHeader c =>
+      simp only [runHead, runGet]
+      exact ih _ _ _ _ (headSim_writeHeader wr rh rg c h) (snapSim_writeHeader wr rh rg c h hs)
+    | write n =>
+      simp only [runHead, runGet]
+      exact ih _ _ _ _ (headSim_write wr rh rg n _ h) (snapSim_write rh rg n _ hs)
+
+/-- If the wrapper's recorder ends with a header snapshot (the handler sent a final status itself, before any
+`Write`), the GET recorder has one too and they agree, Content-Length aside. -/
+theorem runHead_snap (acts : List Act) (r0 : Rec) (h0 : r0.snap = none) (s : Hdr)
+    (hs : (runHead acts 0 false r0).snap = some s) :
+    ∃ s', (runGet acts r0).snap = some s' ∧ s.del hContentLength = s'.del hContentLength := by
+  rcases snapSim_run acts 0 false r0 r0 (headSim_init r0) (.inl h0) with h | ⟨_, s1, s', h1, h2, h3⟩
+  · rw [h] at hs; cases hs
+  · rw [h1] at hs; cases hs; exact ⟨s', h2, h3⟩
+
 /-! ## Content-Length -/
 
 theorem runHead_length_gen (acts : List Act) (sz : Nat) (wr : Bool) (r : Rec)
@@ -350,25 +465,43 @@ theorem runHead_length_gen (acts : List Act) (sz : Nat) (wr : Bool) (r : Rec)
     | writeHeader c =>
       simp only [runHead, written]
       refine ih _ _ _ hclean' (hw' _ rfl ?_)
-      cases wr <;> simp [Rec.writeHeader]
-      split <;> rfl
+      cases wr
+      · exact congrArg (fun h => Hdr.get h hContentLength) (Rec.writeHeader_hdr r c)
+      · rfl
     | write n =>
       simp only [runHead, written]
       rw [ih _ _ _ hclean' (.inr (Hdr.get_set_self _ _ _)), Nat.add_assoc]
+
+/-- Without a FINAL `WriteHeader` (informational ones are allowed) nothing has been sent when the handler returns:
+the live header map (with the accumulated Content-Length) is what `net/http` sends. -/
+theorem runHead_unsent_final (acts : List Act) (sz : Nat) (wr : Bool) (r : Rec)
+    (hnw : ∀ a ∈ acts, a.isFinalHeader = false) :
+    (runHead acts sz wr r).code = r.code ∧ (runHead acts sz wr r).snap = r.snap := by
+  induction acts generalizing sz wr r with
+  | nil => exact ⟨rfl, rfl⟩
+  | cons a as ih =>
+    have h' : ∀ a ∈ as, a.isFinalHeader = false := fun a ha => hnw a (List.mem_cons_of_mem _ ha)
+    have h0 := hnw a (List.mem_cons_self ..)
+    cases a with
+    | writeHeader c =>
+      have hi : informational c = true := by simpa [Act.isFinalHeader] using h0
+      simp only [runHead]
+      rw [(ih _ _ _ h').1, (ih _ _ _ h').2]
+      cases wr
+      · show (r.writeHeader c).code = r.code ∧ (r.writeHeader c).snap = r.snap
+        rw [Rec.writeHeader_info _ _ hi]; exact ⟨rfl, rfl⟩
+      · exact ⟨rfl, rfl⟩
+    | _ => simp only [runHead]; exact ih _ _ _ h'
 
 /-- Without an explicit `WriteHeader` nothing has been sent when the handler returns: the live
 header map (with the accumulated Content-Length) is what `net/http` sends. -/
 theorem runHead_unsent (acts : List Act) (sz : Nat) (wr : Bool) (r : Rec)
     (hnw : ∀ a ∈ acts, a.isWriteHeader = false) :
     (runHead acts sz wr r).code = r.code ∧ (runHead acts sz wr r).snap = r.snap := by
-  induction acts generalizing sz wr r with
-  | nil => exact ⟨rfl, rfl⟩
-  | cons a as ih =>
-    have h' : ∀ a ∈ as, a.isWriteHeader = false := fun a ha => hnw a (List.mem_cons_of_mem _ ha)
-    have h0 := hnw a (List.mem_cons_self ..)
-    cases a with
-    | writeHeader c => simp [Act.isWriteHeader] at h0
-    | _ => simp only [runHead]; exact ih _ _ _ h'
+  apply runHead_unsent_final
+  intro a ha
+  have := hnw a ha
+  cases a <;> first | rfl | (simp [Act.isWriteHeader] at this)
 
 /-! ## `runCall`: HEAD runs the script of the GET handler -/
 
